@@ -75,8 +75,14 @@ func c14Pair(c *engine.Case, name band.Name, b band.Band, s band.VerifBandSnapsh
 	c.NonTrivial()
 	var cmds []spec.LinkADR
 	for _, pl := range pls {
-		if _, err := pl.MarshalBinary(); err != nil {
+		if enc, err := pl.MarshalBinary(); err != nil {
 			c.Fail(fmt.Sprintf("payload-not-encodable/%s", reg), fmt.Sprintf("%s: payload %+v: %v", desc(), pl, err), nil)
+		} else {
+			// the device applies what arrives: the payload as it comes out of the encoding
+			var rx lorawan.LinkADRReqPayload
+			if err := rx.UnmarshalBinary(enc); err != nil || rx != pl {
+				c.Fail(fmt.Sprintf("payload-changed-by-encoding/%s", reg), fmt.Sprintf("%s: payload %+v encodes to %x which decodes to %+v (err %v)", desc(), pl, enc, rx, err), nil)
+			}
 		}
 		cmds = append(cmds, spec.LinkADR{ChMaskCntl: int(pl.Redundancy.ChMaskCntl), Mask: maskOf(pl.ChMask)})
 	}
